@@ -47,6 +47,7 @@ func effectModel(full string, ef *loopEffects, c *ssa.CallCommon) bool {
 var callbackModels = map[string]int{
 	"(*github.com/go-faster/jx.Decoder).Obj":                       1,
 	"(*github.com/go-faster/jx.Decoder).ObjBytes":                  1,
+	"(*github.com/go-faster/jx.Decoder).Capture":                   1,
 	"(*github.com/go-faster/jx.Decoder).Arr":                       1,
 	"(go.opentelemetry.io/collector/pdata/pcommon.Map).Range":      1,
 	"(go.opentelemetry.io/collector/pdata/pcommon.Slice).RemoveIf": 1,
@@ -75,6 +76,7 @@ var opaqueModels = map[string]bool{
 	"(*github.com/go-logfmt/logfmt.Decoder).Value":                     true,
 	"(*github.com/go-logfmt/logfmt.Decoder).Err":                       true,
 	"strings.NewReader":                                                true,
+	"slices.Equal":                                                     true,
 	"os.Getenv":                                                        true,
 	"(*os.File).Fd":                                                    true,
 	"github.com/mattn/go-isatty.IsTerminal":                            true,
@@ -84,6 +86,7 @@ var opaqueModels = map[string]bool{
 	"(*text/template.Template).Funcs":                                  true,
 	"(*text/template.Template).Parse":                                  true,
 	"go.opentelemetry.io/collector/pdata/pcommon.NewMap":               true,
+	"(go.opentelemetry.io/collector/pdata/pcommon.Map).PutStr":         true,
 	"(go.opentelemetry.io/collector/pdata/pcommon.TraceID).IsEmpty":    true,
 	"(go.opentelemetry.io/collector/pdata/pcommon.SpanID).IsEmpty":     true,
 	"(go.opentelemetry.io/collector/pdata/plog.SeverityNumber).String": true,
@@ -558,6 +561,13 @@ func init() {
 		})
 	}
 	// ---- bytes.Buffer as a string content; text/template.Execute appends an uninterpreted expansion
+	regEff("bytes.NewBuffer", "a new buffer whose content is the given bytes; nothing else of the program heap is touched", func(ex *Exec, a []Val, st *State, sig *types.Signature) []Val {
+		b := ex.newObj()
+		sl := a[0].(*Agg)
+		hn, hs := heapName(SInt)
+		st.heap.storeLeaf(Fld(b, bufferContentField), UF("bytestr", SStr, tm(sl.F[0]), tm(sl.F[1]), tm(sl.F[2]), st.heap.array(hn, hs)))
+		return []Val{b}
+	})
 	regEff("(*bytes.Buffer).Reset", "content becomes empty", func(ex *Exec, a []Val, st *State, sig *types.Signature) []Val {
 		st.heap.storeLeaf(Fld(tm(a[0]), bufferContentField), StrLit(""))
 		return nil
